@@ -5,6 +5,7 @@ import (
 	"math"
 	"net/http"
 	"strings"
+	"time"
 
 	"github.com/jub0bs/cors"
 	"github.com/jub0bs/cors/cfgerrors"
@@ -108,6 +109,54 @@ func c17Judge(k c17Case) *vlib.Failure {
 			req.Hdr = hdr
 		}
 		m.Wrap(http.HandlerFunc(func(http.ResponseWriter, *http.Request) {})).ServeHTTP(vlib.NewRec(), req.HTTP())
+	case "reentrant":
+		cfg := k.Cfg.Config()
+		m, err := cors.NewMiddleware(cfg)
+		if err != nil {
+			return vlib.Failf("configuration of the C17 alphabet rejected: %v", err)
+		}
+		m.SetDebug(k.Debug)
+		calls := []func(){func() { m.Reconfigure(m.Config()) }, func() { m.SetDebug(!k.Debug) }, func() { c2 := k.Cfg.Config(); m.Reconfigure(&c2) }, func() { _ = m.Config() }, func() { m.Reconfigure(nil) }}
+		for ci, call := range calls {
+			for _, where := range []string{"handler", "Header()", "WriteHeader()"} {
+				if reentrantDeadlock.Load() {
+					return vlib.Failf("a control call made from inside a request does not return (deadlock established earlier in this run)")
+				}
+				done := make(chan *vlib.Failure, 1)
+				go func() {
+					done <- vlib.Guard(func() *vlib.Failure {
+						w := &reentrantRW{Rec: *vlib.NewRec()}
+						var h http.Handler = noopHandler
+						switch where {
+						case "handler":
+							h = http.HandlerFunc(func(http.ResponseWriter, *http.Request) { call() })
+						case "Header()":
+							w.do = call
+						}
+						var rw http.ResponseWriter = w
+						if where == "WriteHeader()" {
+							rw = &writeHeaderHook{reentrantRW: w, do: call}
+						}
+						m.Wrap(h).ServeHTTP(rw, k.Req.HTTP())
+						return nil
+					})
+				}()
+				select {
+				case f := <-done:
+					if f != nil {
+						return f
+					}
+				case <-time.After(20 * time.Second):
+					reentrantDeadlock.Store(true)
+					return vlib.Failf("control call #%d made from inside %s of a request (%s) did not return within 20 s: the wrapped handler never returns", ci, where, k.Req)
+				}
+				if m.Config() == nil {
+					c2 := k.Cfg.Config()
+					m.Reconfigure(&c2)
+					m.SetDebug(k.Debug)
+				}
+			}
+		}
 	case "traffic":
 		cfg := k.Cfg.Config()
 		m, err := cors.NewMiddleware(cfg)
@@ -147,6 +196,20 @@ func c17Judge(k c17Case) *vlib.Failure {
 		return vlib.Failf("bad case")
 	}
 	return nil
+}
+
+// writeHeaderHook performs a call from inside WriteHeader (once).
+type writeHeaderHook struct {
+	*reentrantRW
+	do func()
+}
+
+func (w *writeHeaderHook) WriteHeader(code int) {
+	if f := w.do; f != nil {
+		w.do = nil
+		f()
+	}
+	w.reentrantRW.WriteHeader(code)
 }
 
 func c17Test(k c17Case) string {
@@ -395,6 +458,16 @@ func checkC17(c *vlib.Ctx) (string, string) {
 			c.States.Add(1)
 			c.Transitions.Add(int64(len(trafficSequence(300, "https://t%d.a.b", "https://t%d.xa.b"))))
 			ck.Try(k)
+		}
+	}
+	// re-entrant control calls: the wrapped handler or the ResponseWriter administers the middleware it sits behind
+	for _, l := range []CfgLit{{Origins: []string{"https://a.b"}, Methods: []string{"PUT"}}, {Origins: []string{"*"}, RequestHeaders: []string{"*"}}} {
+		for _, dbg := range []bool{false, true} {
+			for _, r := range []vlib.Req{{Method: "GET"}, {Method: "GET", Hdr: map[string][]string{"Origin": {"https://a.b"}}}, {Method: "OPTIONS", Hdr: map[string][]string{"Origin": {"https://a.b"}, "Access-Control-Request-Method": {"PUT"}}}, {Method: "OPTIONS", Hdr: map[string][]string{"Origin": {"https://a.b"}}}} {
+				c.States.Add(1)
+				c.Transitions.Add(15)
+				ck.Try(c17Case{Kind: "reentrant", Cfg: l, Debug: dbg, Req: r})
+			}
 		}
 	}
 	// multiplicities and extreme sizes
